@@ -18,6 +18,16 @@
  *          la = last_activity, tmo = connection_timeout_ms, flags: s suspended, r resuming,
  *          x state == CLOSED, p event_loop_info has the PROCESS bit (work pending without any
  *          socket event), b<n> n unprocessed upload bytes in the read buffer (state BODY_RECEIVING)
+ *   get <c> <k>    (select loop only) the client sends a complete request in one piece; the reply is sent
+ *                  through an interposed send()/sendmsg()/writev() that passes at most the number of bytes
+ *                  granted with `allow` (a slow reader): k = n normal body (3000 bytes), h header block only
+ *                  (one 1500 byte header, empty body), c chunked body from a content reader (2 x 1200 bytes),
+ *                  f chunked body + footer, e "Expect: 100-continue" POST (the interim reply is sent
+ *                  the same way; the connection is a posting one afterwards)
+ *   allow <c> <n>  the client reads n more bytes (1..4000): the server side may send n more bytes
+ *          events: w<c> a send with progress happened on <c> in this operation, fin<c> the reply (or the
+ *          100 Continue) is out completely, wire<c> bytes arrived at the client
+ *   round [w=..] [f=..]  annotations are echoed and otherwise ignored
  *   slow <c>       the handler of <c> consumes one upload byte per call from now on (the rest stays in
  *                  MHD's read buffer: *upload_data_size is left non-zero, which is legal)
  *   sendn <c> <k>  like `send`, but k (1..8) body bytes in one piece
@@ -64,6 +74,13 @@ struct conn {
   int kind;                 /* 0 nothing sent yet, 1 posting (handler aware), 2 partial request line */
   int want_susp;
   int slow;                 /* handler takes one upload byte per call */
+  int sfd;                  /* the server side of the socketpair */
+  int limited;              /* sends on sfd are limited to `quota` bytes */
+  size_t quota;
+  int wrote;                /* a limited send made progress since the last report */
+  int rep;                  /* a reply (or 100 Continue) is on its way */
+  char rkind;
+  int repdone;              /* the reply was completed (callback) */
   struct MHD_Connection *mc;
 };
 static struct conn conns[MAXC];
@@ -84,6 +101,40 @@ static int idx_of (const struct MHD_Connection *mc)
   for (c = 0; c < MAXC; c++) if (conns[c].used && conns[c].mc == mc) return c;
   return -1;
 }
+
+/* ---------------------------------------------------------------- the slow reader: interposed send calls */
+#include <sys/syscall.h>
+#include <sys/uio.h>
+static int limited_idx (int fd)
+{
+  int c;
+  for (c = 0; c < MAXC; c++) if (conns[c].used && conns[c].limited && conns[c].mc && conns[c].sfd == fd) return c;   /* mc: not a stale fd number */
+  return -1;
+}
+ssize_t send (int fd, const void *buf, size_t n, int flags)
+{
+  int c = limited_idx (fd); long r;
+  if (c >= 0) { if (0 == conns[c].quota && 0 != n) { errno = EAGAIN; return -1; } if (n > conns[c].quota) n = conns[c].quota; }
+  r = syscall (SYS_sendto, fd, buf, n, flags, NULL, 0);
+  if (c >= 0 && r > 0) { conns[c].quota -= (size_t) r; conns[c].wrote = 1; }
+  return (ssize_t) r;
+}
+static ssize_t send_iov (int fd, const struct iovec *iov, size_t cnt, int flags)
+{
+  int c = limited_idx (fd); long r; struct iovec v[8]; struct msghdr m; size_t i, left, k = 0;
+  if (c < 0 || cnt > 8)
+  { memset (&m, 0, sizeof(m)); m.msg_iov = (struct iovec *) iov; m.msg_iovlen = cnt; return (ssize_t) syscall (SYS_sendmsg, fd, &m, flags); }
+  left = conns[c].quota;
+  for (i = 0; i < cnt && left > 0; i++)
+  { v[k] = iov[i]; if (v[k].iov_len > left) v[k].iov_len = left; left -= v[k].iov_len; if (v[k].iov_len) k++; }
+  if (0 == k) { size_t tot = 0; for (i = 0; i < cnt; i++) tot += iov[i].iov_len; if (0 == tot) return 0; errno = EAGAIN; return -1; }
+  memset (&m, 0, sizeof(m)); m.msg_iov = v; m.msg_iovlen = k;
+  r = syscall (SYS_sendmsg, fd, &m, flags);
+  if (r > 0) { conns[c].quota -= (size_t) r; conns[c].wrote = 1; }
+  return (ssize_t) r;
+}
+ssize_t sendmsg (int fd, const struct msghdr *msg, int flags) { return send_iov (fd, msg->msg_iov, msg->msg_iovlen, flags); }
+ssize_t writev (int fd, const struct iovec *iov, int cnt) { return send_iov (fd, iov, (size_t) cnt, MSG_NOSIGNAL); }
 
 /* ---------------------------------------------------------------- callbacks */
 static void notify_conn (void *cls, struct MHD_Connection *mc, void **socket_context,
@@ -115,6 +166,34 @@ static void completed (void *cls, struct MHD_Connection *mc, void **req_cls, enu
   (void) cls; (void) req_cls;
   if (MHD_REQUEST_TERMINATED_TIMEOUT_REACHED == toe) ev ("to%d", c);
   else ev ("co%d:%d", c, (int) toe);
+  if (MHD_REQUEST_TERMINATED_COMPLETED_OK == toe && c >= 0 && conns[c].rep) conns[c].repdone = 1;
+}
+
+static ssize_t chunk_reader (void *cls, uint64_t pos, char *buf, size_t max)
+{
+  (void) cls;
+  if (pos >= 2400) return MHD_CONTENT_READER_END_OF_STREAM;
+  if (max > 1200) max = 1200;
+  memset (buf, 'c', max);
+  return (ssize_t) max;
+}
+
+static enum MHD_Result queue_reply (struct MHD_Connection *mc, char k)
+{
+  static char body[3000]; static char big[1501];
+  struct MHD_Response *r; enum MHD_Result q;
+  if ('n' == k) { memset (body, 'b', sizeof(body)); r = MHD_create_response_from_buffer_static (sizeof(body), body); }
+  else if ('h' == k)
+  { memset (big, 'v', 1500); big[1500] = 0; r = MHD_create_response_from_buffer_static (0, ""); if (r) MHD_add_response_header (r, "X-Big", big); }
+  else
+  {
+    r = MHD_create_response_from_callback (MHD_SIZE_UNKNOWN, 1200, &chunk_reader, NULL, NULL);
+    if (r && 'f' == k) MHD_add_response_footer (r, "X-Foot", "tail");
+  }
+  if (NULL == r) return MHD_NO;
+  q = MHD_queue_response (mc, MHD_HTTP_OK, r);
+  MHD_destroy_response (r);
+  return q;
 }
 
 static enum MHD_Result handler (void *cls, struct MHD_Connection *mc, const char *url, const char *method,
@@ -123,8 +202,9 @@ static enum MHD_Result handler (void *cls, struct MHD_Connection *mc, const char
 {
   static int token;
   int c = idx_of (mc);
-  (void) cls; (void) url; (void) method; (void) version; (void) upload_data;
+  (void) cls; (void) version; (void) upload_data;
   if (NULL == *req_cls) { *req_cls = &token; return MHD_YES; }
+  if (!strcmp (method, "GET") && '/' == url[0] && url[1]) return queue_reply (mc, url[1]);
   if (0 != *upload_data_size)
   {
     if (c >= 0 && conns[c].slow) *upload_data_size -= 1;   /* take one byte, leave the rest */
@@ -145,12 +225,12 @@ static void drain_clients (void)
   int c;
   for (c = 0; c < MAXC; c++)
   {
-    static uint8_t buf[4096];
+    static uint8_t buf[4096]; int got = 0;
     if (!conns[c].used || conns[c].cfd < 0 || conns[c].eof_seen) continue;
     for (;;)
     {
       ssize_t r = recv (conns[c].cfd, buf, sizeof(buf), MSG_DONTWAIT);
-      if (r > 0) { ev ("wire%d", c); continue; }
+      if (r > 0) { if (!got) ev ("wire%d", c); got = 1; continue; }
       if (0 == r) { ev ("eof%d", c); conns[c].eof_seen = 1; }
       else if (errno == ECONNRESET || errno == EPIPE) { ev ("eof%d", c); conns[c].eof_seen = 1; }
       break;
@@ -173,6 +253,22 @@ static void put_list (const char *name, struct MHD_Connection *head, int which)
 static void report (const char *echo)
 {
   uint64_t to; int c;
+  for (c = 0; c < MAXC; c++) if (conns[c].used && conns[c].wrote) { ev ("w%d", c); conns[c].wrote = 0; }
+  for (c = 0; c < MAXC; c++)
+    if (conns[c].used && conns[c].rep && conns[c].repdone)
+    { ev ("fin%d", c); conns[c].rep = 0; conns[c].repdone = 0; conns[c].kind = 0; }
+    else if (conns[c].used && conns[c].rep && conns[c].mc && 'e' == conns[c].rkind)
+    { /* 100 Continue out completely: the connection waits for the next request / for the request body again */
+      enum MHD_CONNECTION_STATE st = conns[c].mc->state;
+      if (1 == conns[c].rep)
+      { /* the request has not been read yet */
+        if (MHD_CONNECTION_INIT != st && MHD_CONNECTION_REQ_LINE_RECEIVING != st) conns[c].rep = 2;
+      }
+      else if ((MHD_CONNECTION_BODY_RECEIVING == st)
+          && 0 == conns[c].mc->write_buffer_append_offset - conns[c].mc->write_buffer_send_offset)
+      { ev ("fin%d", c); conns[c].rep = 0; conns[c].kind = 1; }
+    }
+    else if (conns[c].used && conns[c].rep && !conns[c].mc) conns[c].rep = 0;
   drain_clients ();
   printf ("%s ev=[%s]", echo, evbuf);
   evlen = 0; evbuf[0] = 0;
@@ -292,13 +388,13 @@ int main (void)
       memset (&sa, 0, sizeof(sa)); sa.sin_family = AF_INET; sa.sin_port = htons ((uint16_t) (1000 + a));
       sa.sin_addr.s_addr = htonl (0x0a000001u + (uint32_t) a);
       memset (&conns[a], 0, sizeof(conns[a]));
-      conns[a].used = 1; conns[a].cfd = sv[0];
+      conns[a].used = 1; conns[a].cfd = sv[0]; conns[a].sfd = sv[1];
       q = MHD_add_connection (d, sv[1], (struct sockaddr *) &sa, sizeof(sa));
       if (MHD_YES != q) { ev ("add-failed"); }
       report (echo); continue;
     }
     if (!strcmp (op, "sendn") && 3 == l.n && lp_u64 (l.w[1], &a) && a < MAXC && conns[a].used && conns[a].cfd >= 0
-        && lp_u64 (l.w[2], &b) && b >= 1 && b <= 8 && 2 != conns[a].kind)
+        && lp_u64 (l.w[2], &b) && b >= 1 && b <= 8 && 2 != conns[a].kind && 3 != conns[a].kind)
     {
       char data[sizeof(POST_HEAD) + 8]; size_t n = 0;
       if (0 == conns[a].kind) { memcpy (data, POST_HEAD, sizeof(POST_HEAD) - 1); n = sizeof(POST_HEAD) - 1; b--; }
@@ -311,7 +407,7 @@ int main (void)
         && !(conns[a].mc && conns[a].mc->suspended))
     { conns[a].slow = 1; report (echo); continue; }
     if ((!strcmp (op, "send") || !strcmp (op, "sendp")) && 2 == l.n && lp_u64 (l.w[1], &a) && a < MAXC
-        && conns[a].used && conns[a].cfd >= 0)
+        && conns[a].used && conns[a].cfd >= 0 && 3 != conns[a].kind)
     {
       int posting = !strcmp (op, "send");
       const char *data; size_t n;
@@ -321,9 +417,24 @@ int main (void)
       (void) send (conns[a].cfd, data, n, MSG_DONTWAIT | MSG_NOSIGNAL); /* fails when the server has closed the socket */
       report (echo); continue;
     }
-    if (!strcmp (op, "cclose") && 2 == l.n && lp_u64 (l.w[1], &a) && a < MAXC && conns[a].used && conns[a].cfd >= 0)
+    if (!strcmp (op, "cclose") && 2 == l.n && lp_u64 (l.w[1], &a) && a < MAXC && conns[a].used && conns[a].cfd >= 0
+        && 3 != conns[a].kind)
     { drain_clients (); close (conns[a].cfd); conns[a].cfd = -1; conns[a].eof_seen = 1; report (echo); continue; }
-    if (!strcmp (op, "round") && 1 == l.n) { one_round (); report (echo); continue; }
+    if (!strcmp (op, "round") && l.n >= 1 && l.n <= 3) { one_round (); report (echo); continue; }
+    if (!strcmp (op, "get") && 3 == l.n && lp_u64 (l.w[1], &a) && a < MAXC && conns[a].used && conns[a].cfd >= 0
+        && 0 == conns[a].kind && !conns[a].rep && !strcmp (cfg.mode, "select") && 1 == strlen (l.w[2]) && strchr ("nhcfe", l.w[2][0]))
+    {
+      char rq[160]; int n;
+      if ('e' == l.w[2][0]) n = snprintf (rq, sizeof(rq), "POST /p HTTP/1.1\r\nHost: h\r\nContent-Length: 1000000\r\nExpect: 100-continue\r\n\r\n");
+      else n = snprintf (rq, sizeof(rq), "GET /%c HTTP/1.1\r\nHost: h\r\n\r\n", l.w[2][0]);
+      conns[a].kind = 3; conns[a].rep = 1; conns[a].rkind = l.w[2][0];
+      if (!conns[a].limited) { conns[a].limited = 1; conns[a].quota = 0; }
+      (void) send (conns[a].cfd, rq, (size_t) n, MSG_DONTWAIT | MSG_NOSIGNAL);
+      report (echo); continue;
+    }
+    if (!strcmp (op, "allow") && 3 == l.n && lp_u64 (l.w[1], &a) && a < MAXC && conns[a].used && conns[a].limited
+        && lp_u64 (l.w[2], &b) && b >= 1 && b <= 4000)
+    { conns[a].quota += (size_t) b; report (echo); continue; }
     if (!strcmp (op, "tick") && 2 == l.n && lp_u64 (l.w[1], &a)) { vclock_ms += a; report (echo); continue; }
     if (!strcmp (op, "tickback") && 2 == l.n && lp_u64 (l.w[1], &a) && a <= vclock_ms) { vclock_ms -= a; report (echo); continue; }
     if (!strcmp (op, "set-timeout") && 3 == l.n && lp_u64 (l.w[1], &a) && lp_u64 (l.w[2], &b) && a < MAXC
